@@ -29,6 +29,8 @@ CAT = [
     ("entry", "c", "k3", [("h", "{plain}")]),
     ("string", "S", '"upper"'),
     ("entry-ml", "d", "k4", [("x", "s"), ("y", "t")]),  # multi-line layout, bare reference last, no trailing comma
+    ("string", "v", "v"),  # content equal to its own key
+    ("entry", "e", "k5", [("p", "v"), ("q", "{v}"), ("r", "s")]),
 ]
 
 
